@@ -19,7 +19,7 @@ RULE = ('Hypothesis documents (profile "full" with global comments before the he
         'encoding; frequencies sum to the listing and agree per encoding; get_metacomments == the "!!" lines in order, '
         'with key == those starting with "!!!key"; is_monophonic == (one **kern header and no chord and >=1 '
         'note/rest).  One deterministic case is a stream of 60+ small scores with five different spine layouts, each imported, queried and '
-        'released before the next is imported (answers must not be inherited from a released document).  A second run uses degenerate documents (no barline, zero to two data rows, no null tokens in the '
+        'released before the next is imported (answers must not be inherited from a released document).  The repository\'s own sample scores (test/resource_dir) are queried as well, with the clauses that need no model (filtered listing == sub-sequence of the full listing by closure, unique, frequencies, comment lines of the file, monophony).  A second run uses degenerate documents (no barline, zero to two data rows, no null tokens in the '
         'data rows, with or without a **kern spine); a third one documents without any **kern spine whose notes live in '
         '**root spines (next to **text / **dynam / **harm).  Non-trivial: the document has a split and at least one global comment after the header.')
 ASSUMPTIONS = ['kv/spine.py depth-first order', 'kv/cats.py closure',
@@ -86,6 +86,57 @@ def check_stream(case):
             del d_
             gc.collect()
     return Result(nontrivial=True, classes=['stream-of-released-documents'], evals=n, sample={'stream': n}, key=['stream', case])
+
+
+def check_real(case):
+    """a sample score of the repository: the clauses that need no model of the document - a filtered listing is the
+    sub-sequence of the full listing whose (kernpy-assigned) category lies in the README closure of the filter, unique listings
+    keep first occurrences, frequencies sum to the listing, the comment query returns the '!!' lines of the file in order,
+    monophony follows from header line and listing"""
+    from .. import realscores as RS
+    try:
+        kdoc, errs = kp.load(RS.path(case['real']))
+    except Exception:  # noqa
+        return Result(classes=['real-score-not-importable'])
+    with open(RS.path(case['real']), encoding='utf-8', newline='') as f:
+        raw = f.read()
+    toks = kdoc.get_all_tokens()
+    encs, tcats = [t.encoding for t in toks], [t.category.name for t in toks]
+    ncells = sum(len(l.split('\t')) for l in raw.replace('\r', '').split('\n') if l and not l.startswith('!!'))
+    nglob = sum(1 for l in raw.replace('\r', '').split('\n') if l.startswith('!!'))
+    if not errs and len(toks) != ncells + nglob:
+        raise Bad('multiplicity', f'{case["real"]}: {len(toks)} tokens for {ncells} cells and {nglob} global comment lines')
+    if kdoc.get_all_tokens_encodings() != encs:
+        raise Bad('encodings-listing', f'{case["real"]}: get_all_tokens_encodings differs from get_all_tokens')
+    evals = 1
+    names = [cats.ALL[x % 37] for x, _ in case['raw']] + ['CORE', 'NOTE_REST', 'SIGNATURES', 'BARLINES', 'COMMENTS', 'LYRICS', 'DYNAMICS']
+    filters = [[n_] for n_ in names] + [names[:2], names[1:4]]
+    for f in filters:
+        closure = cats.selected(f, None)
+        arg = [TC[n_] for n_ in f]
+        e = [enc for enc, c in zip(encs, tcats) if c in closure]
+        g = [t.encoding for t in kdoc.get_all_tokens(filter_by_categories=arg)]
+        evals += 1
+        if g != e:
+            raise Bad('filtered-listing', f'{case["real"]} filter {f}: {len(g)} tokens, the full listing has {len(e)} in the closure')
+        eu = list(dict.fromkeys(e))
+        if kdoc.get_unique_token_encodings(filter_by_categories=arg) != eu or [t.encoding for t in kdoc.get_unique_tokens(filter_by_categories=arg)] != eu:
+            raise Bad('unique', f'{case["real"]} filter {f}: unique listing is not the first occurrences')
+        fr = kdoc.frequencies(arg)
+        if sum(v['occurrences'] for v in fr.values()) != len(e) or {k: v['occurrences'] for k, v in fr.items()} != dict(collections.Counter(e)) or list(fr) != eu:
+            raise Bad('frequencies', f'{case["real"]} filter {f}: frequencies do not agree with the listing')
+    glob = [l for l in raw.replace('\r', '').split('\n') if l.startswith('!!')]
+    if kdoc.get_metacomments() != glob:
+        raise Bad('metacomments', f'{case["real"]}: get_metacomments() has {len(kdoc.get_metacomments())} entries, the file {len(glob)} global comment lines')
+    for key in sorted({c[3:].split(':')[0] for c in glob if c.startswith('!!!')})[:6]:
+        if kdoc.get_metacomments(key) != [c for c in glob if c.startswith('!!!' + key)]:
+            raise Bad('metacomments-key', f'{case["real"]}: get_metacomments({key!r})')
+    if not errs:
+        header = next(l for l in raw.replace('\r', '').split('\n') if l.startswith('**')).split('\t')
+        mono = header.count('**kern') == 1 and 'CHORD' not in tcats and 'NOTE_REST' in tcats
+        if kp.is_monophonic(kdoc) != mono:
+            raise Bad('monophonic', f'{case["real"]}: is_monophonic = {kp.is_monophonic(kdoc)}, header {header}, chord tokens {tcats.count("CHORD")}')
+    return Result(nontrivial=len(toks) > 50, evals=evals, classes=['real-score'], sample={'file': case['real'], 'tokens': len(toks)}, key=['real', case['real'], case['raw']])
 
 
 _THROWAWAY = ['**kern\n*clefG2\n4c\n4d\n*-\n', '**kern\t**kern\n*clefF4\t*clefG2\n4C\t4c\n*-\t*-\n', '**text\nla\n*-\n',
@@ -174,6 +225,10 @@ def check(case):
 
 def run(ctx):
     ctx.check_all([{'rounds': 12 + ctx.shard}], check_stream)
+    from .. import realscores as RS
+    rc = RS.cases(max_bytes=20000, nranges=4)
+    if rc is not None:
+        ctx.run_hypothesis(rc, check_real, max_examples=16 if ctx.quick else 300, salt=9, label='real-scores')
     if ctx.shard == 0:  # one long score (tree depth == number of rows)
         ctx.check_all([{'doc': D.long_document(1150 + 29 * (ctx.seed % 9), ctx.seed), 'filters': [['CORE'], ['BARLINES', 'LYRICS']], 'shape': 'list'}], check)
     ctx.run_hypothesis(cases(), check, max_examples=250 if ctx.quick else 2000, label='queries')
@@ -184,4 +239,6 @@ def run(ctx):
 def replay(case):
     if 'rounds' in case:
         return check_stream(case)
+    if 'real' in case:
+        return check_real(case)
     return check(case)
